@@ -112,4 +112,126 @@ theorem canon_recv {tl : Bool} {now : Nat} {d : List Nat} {c : Conn6.Conn} {p : 
   | error e => simp [hc] at h
   | ok v => obtain ⟨c1, o⟩ := v; simp [hc] at h; rw [← h]; exact canon_feed hc
 
+/-! ### anatomy of a step -/
+
+theorem nwStep_some {tl : Bool} {addr : Nat} {w w' : NW tl} {m : NMove} (h : nwStep addr w m = some w') :
+    ∃ net1 r o g1, realStep tl addr w m = some (net1, r, o) ∧
+      (created addr w net1 && w.born) = false ∧ ghostStep tl addr w m = some g1 ∧
+      w' = { net := net1, g := g1, born := w.born || created addr w net1
+             req := if created addr w net1 then reqOf m else w.req
+             netOut := w.netOut ++ (o.for addr).sent.map (·.2)
+             netVital := w.netVital ++ vitalOfNet (o.for addr).events
+             netSub := w.netSub ++ subOf addr w.net r m } := by
+  unfold nwStep at h
+  cases hr : realStep tl addr w m with
+  | none => simp [hr] at h
+  | some v =>
+    obtain ⟨net1, r, o⟩ := v
+    simp only [hr] at h
+    cases hc : (created addr w net1 && w.born) with
+    | true => simp [hc] at h
+    | false =>
+      simp only [hc, Bool.false_eq_true, if_false] at h
+      cases hg : ghostStep tl addr w m with
+      | none => simp [hg] at h
+      | some g1 =>
+        simp only [hg, Option.some.injEq] at h
+        exact ⟨net1, r, o, g1, rfl, hc, rfl, h.symm⟩
+
+/-- a ghost move of the remote's side leaves `b` and the clock's reading of `b` alone, keeps the
+remote's history as a prefix and keeps it canonical -/
+theorem ghost_a_step {tl : Bool} {g g1 : World (proto6 tl)} {gm : Move (proto6 tl)}
+    (hgm : (∃ d c, gm = .call .a d c) ∨ (∃ i d alt, gm = .deliver .a i d alt) ∨ ∃ dt, gm = .advance dt)
+    (hc : ∀ dg ∈ g.a.out, Canon dg.pkt) (h : NetSim.step g gm = some g1) :
+    g1.b = g.b ∧ (∀ (i : Nat) dg, g.a.out[i]? = some dg → g1.a.out[i]? = some dg) ∧ ∀ dg ∈ g1.a.out, Canon dg.pkt := by
+  rcases hgm with ⟨d, c, rfl⟩ | ⟨i, d, alt, rfl⟩ | ⟨dt, rfl⟩
+  · simp only [NetSim.step, World.get] at h
+    cases hcall : (proto6 tl).call g.now d g.a.conn c with
+    | error e => simp [hcall] at h
+    | ok r =>
+      simp only [hcall, Option.some.injEq] at h
+      subst h
+      refine ⟨rfl, ?_, ?_⟩
+      · intro i dg hi
+        simp only [World.set, End.book]
+        rw [List.getElem?_append_left (by
+          have := List.getElem?_eq_some_iff.1 hi; exact this.1)]
+        exact hi
+      · intro dg hdg
+        simp only [World.set, End.book, List.mem_append, List.mem_map] at hdg
+        rcases hdg with hdg | ⟨p, hp, rfl⟩
+        · exact hc dg hdg
+        · exact canon_call hcall p hp
+  · simp only [NetSim.step, World.get, Side.other] at h
+    cases hdg : g.b.out[i]? with
+    | none => simp [hdg] at h
+    | some dg0 =>
+      simp only [hdg] at h
+      cases hrecv : (proto6 tl).recv g.now d g.a.conn dg0.pkt alt with
+      | error e => simp [hrecv] at h
+      | ok r =>
+        simp only [hrecv, Option.some.injEq] at h
+        subst h
+        refine ⟨rfl, ?_, ?_⟩
+        · intro j dg hj
+          simp only [World.set, End.book]
+          rw [List.getElem?_append_left (by
+            have := List.getElem?_eq_some_iff.1 hj; exact this.1)]
+          exact hj
+        · intro dg hdg'
+          simp only [World.set, End.book, List.mem_append, List.mem_map] at hdg'
+          rcases hdg' with hdg' | ⟨p, hp, rfl⟩
+          · exact hc dg hdg'
+          · exact canon_recv hrecv p hp
+  · simp only [NetSim.step, Option.some.injEq] at h
+    subst h
+    exact ⟨rfl, fun _ _ h => h, hc⟩
+
+theorem created_same {tl : Bool} (addr : Nat) (w : NW tl) : created addr w w.net = false := by
+  unfold created; cases slot w.net.peers addr <;> rfl
+
+theorem empty_for' (a : Nat) : (({} : Out).for a) = {} := by simp [Out.for]
+
+/-- the state after a move that only concerns the remote -/
+theorem coup_remote_core {tl : Bool} {addr : Nat} {w : NW tl} {g1 : World (proto6 tl)} (hc : Coup addr w)
+    (hb : g1.b = w.g.b) (hidx : ∀ (i : Nat) dg, w.g.a.out[i]? = some dg → g1.a.out[i]? = some dg)
+    (hcan : ∀ dg ∈ g1.a.out, Canon dg.pkt) :
+    Coup addr { w with g := g1 } where
+  pinv := hc.pinv
+  conn := by intro pid p h; rw [hb]; exact hc.conn pid p h
+  fresh := by intro h; rw [hb]; exact hc.fresh h
+  pend := by
+    intro pid p h hu
+    obtain ⟨i, alt, dg, h1, h2, h3⟩ := hc.pend pid p h hu
+    exact ⟨i, alt, dg, h1, hidx i dg h2, h3⟩
+  canon := hcan
+  out := by rw [hb]; exact hc.out
+  vital := by rw [hb]; exact hc.vital
+  sub := by rw [hb]; exact hc.sub
+
+theorem coup_remote {tl : Bool} {addr : Nat} {w w' : NW tl} {m : NMove}
+    (hm : (∃ d c, m = .remCall d c) ∨ (∃ i d alt, m = .toRemote i d alt) ∨ ∃ dt, m = .advance dt)
+    (hc : Coup addr w) (h : nwStep addr w m = some w') : Coup addr w' := by
+  obtain ⟨net1, r, o, g1, hr, _, hg, hw⟩ := nwStep_some h
+  have hreal : net1 = w.net ∧ r = .unit ∧ o = {} := by
+    rcases hm with ⟨d, c, rfl⟩ | ⟨i, d, alt, rfl⟩ | ⟨dt, rfl⟩ <;> simp [realStep] at hr <;>
+      exact ⟨hr.1.symm, hr.2.1.symm, hr.2.2.symm⟩
+  obtain ⟨h1, h2, h3⟩ := hreal
+  subst h1 h2 h3
+  have hsub : subOf addr w.net .unit m = [] := by
+    rcases hm with ⟨d, c, rfl⟩ | ⟨i, d, alt, rfl⟩ | ⟨dt, rfl⟩ <;> rfl
+  have hgm : ∃ gm, ghostMove tl addr w m = some gm ∧
+      ((∃ d c, gm = .call .a d c) ∨ (∃ i d alt, gm = .deliver .a i d alt) ∨ ∃ dt, gm = .advance dt) := by
+    rcases hm with ⟨d, c, rfl⟩ | ⟨i, d, alt, rfl⟩ | ⟨dt, rfl⟩
+    · exact ⟨_, rfl, Or.inl ⟨d, c, rfl⟩⟩
+    · exact ⟨_, rfl, Or.inr (Or.inl ⟨i, d, alt, rfl⟩)⟩
+    · exact ⟨_, rfl, Or.inr (Or.inr ⟨dt, rfl⟩)⟩
+  obtain ⟨gm, hgm1, hgm2⟩ := hgm
+  simp only [ghostStep, hgm1] at hg
+  obtain ⟨hb, hidx, hcan⟩ := ghost_a_step hgm2 hc.canon hg
+  have := coup_remote_core hc hb hidx hcan
+  rw [hw]
+  simp only [created_same, Bool.or_false, Bool.false_eq_true, if_false, empty_for', hsub, List.append_nil]
+  simpa [vitalOfNet] using this
+
 end Tw.NetC01
